@@ -212,9 +212,9 @@ def run(chk, repo, tier):
     p = SP.BLS["p"]
     F12 = ExtField(p, (2, 0, 0, 0, 0, 0, -2, 0, 0, 0, 0, 0))
     want = [F12.pow(tuple(1 if j == i else 0 for j in range(12)), p) for i in range(12)]
-    okT = isinstance(table, list) and len(table) == 12 and all(isinstance(t, FieldVal) and t.v == wv for t, wv in zip(table, want))
+    okT = isinstance(table, (list, tuple)) and len(table) == 12 and all(isinstance(t, FieldVal) and t.v == wv for t, wv in zip(table, want))
     chk.ob("C12.R2", f"{OPT_BLS}.exptable", "[(w^i)^p for i in 0..11]", okT,
-           f"{len(table) if isinstance(table, list) else '?'} entries", m.relpath)
+           f"{len(table) if isinstance(table, (list, tuple)) else '?'} entries", m.relpath)
     f = repo.func(f"{OPT_BLS}.exp_by_p")
     FQ12 = it0.eval_global(m, "FQ12")
     mc = it0.class_attr(FQ12, "FQ12_MODULUS_COEFFS")
